@@ -136,3 +136,47 @@ Definition emitted_type_names (i : idl) : list str := map fst (emitted i).
 Definition emitted_fn_names (i : idl) : list str :=
   map (fun m => snake (fst (fst m))) (methods_of i) ++
   map (fun e => [114; 101; 112; 108; 121; 95] ++ snake (fst e)) (errors_of i).
+
+(* ---- known classes of definitions whose generated code does not compile (C09 findings) ---- *)
+Fixpoint has_dup (l : list str) : bool :=
+  match l with
+  | [] => false
+  | x :: r => existsb (beq_str x) r || has_dup r
+  end.
+
+(* names the generated module defines or imports itself *)
+Definition s (l : str) : str := l.
+Definition fixed_names : list str :=
+  [ s [69;114;114;111;114] (* Error *); s [69;114;114;111;114;75;105;110;100] (* ErrorKind *);
+    s [82;101;115;117;108;116] (* Result *); s [65;114;99] (* Arc *); s [82;119;76;111;99;107] (* RwLock *);
+    s [66;117;102;82;101;97;100] (* BufRead *); s [83;101;114;105;97;108;105;122;101] (* Serialize *);
+    s [68;101;115;101;114;105;97;108;105;122;101] (* Deserialize *); s [67;97;108;108;84;114;97;105;116] (* CallTrait *);
+    s [86;97;114;108;105;110;107;67;108;105;101;110;116] (* VarlinkClient *);
+    s [86;97;114;108;105;110;107;73;110;116;101;114;102;97;99;101] (* VarlinkInterface *);
+    s [86;97;114;108;105;110;107;67;108;105;101;110;116;73;110;116;101;114;102;97;99;101] (* VarlinkClientInterface *);
+    s [86;97;114;108;105;110;107;73;110;116;101;114;102;97;99;101;80;114;111;120;121] (* VarlinkInterfaceProxy *);
+    s [86;97;114;108;105;110;107;67;97;108;108;69;114;114;111;114] (* VarlinkCallError *);
+    s [79;112;116;105;111;110] (* Option *); s [86;101;99] (* Vec *); s [83;116;114;105;110;103] (* String *);
+    s [66;111;120] (* Box *); s [83;111;109;101] (* Some *); s [78;111;110;101] (* None *); s [79;107] (* Ok *); s [69;114;114] (* Err *);
+    s [83;101;108;102] (* Self *); s [83;101;110;100] (* Send *); s [83;121;110;99] (* Sync *); s [70;114;111;109] (* From *);
+    s [73;110;116;111] (* Into *); s [67;108;111;110;101] (* Clone *); s [68;101;98;117;103] (* Debug *);
+    s [80;97;114;116;105;97;108;69;113] (* PartialEq *); s [68;101;102;97;117;108;116] (* Default *) ].
+
+Definition rust_keywords : list str :=
+  [ s [97;115]; s [98;114;101;97;107]; s [99;111;110;115;116]; s [99;111;110;116;105;110;117;101]; s [99;114;97;116;101]; s [100;121;110];
+    s [101;108;115;101]; s [101;110;117;109]; s [101;120;116;101;114;110]; s [102;97;108;115;101]; s [102;110]; s [102;111;114]; s [105;102];
+    s [105;109;112;108]; s [105;110]; s [108;101;116]; s [108;111;111;112]; s [109;97;116;99;104]; s [109;111;100]; s [109;111;118;101]; s [109;117;116];
+    s [112;117;98]; s [114;101;102]; s [114;101;116;117;114;110]; s [115;101;108;102]; s [115;116;97;116;105;99]; s [115;116;114;117;99;116];
+    s [115;117;112;101;114]; s [116;114;97;105;116]; s [116;114;117;101]; s [116;121;112;101]; s [117;110;115;97;102;101]; s [117;115;101];
+    s [119;104;101;114;101]; s [119;104;105;108;101]; s [97;115;121;110;99]; s [97;119;97;105;116]; s [97;98;115;116;114;97;99;116]; s [98;101;99;111;109;101];
+    s [98;111;120]; s [100;111]; s [102;105;110;97;108]; s [109;97;99;114;111]; s [111;118;101;114;114;105;100;101]; s [112;114;105;118]; s [116;114;121];
+    s [116;121;112;101;111;102]; s [117;110;115;105;122;101;100]; s [118;105;114;116;117;97;108]; s [121;105;101;108;100]; s [103;101;110] ].
+
+Inductive gclass := GReserved | GDupType | GDupFn | GFixedName | GKeywordFn.
+
+Definition known_classes (i : idl) : list gclass :=
+  (if generator_panics i then [GReserved] else []) ++
+  (if has_dup (emitted_type_names i) then [GDupType] else []) ++
+  (if has_dup (emitted_fn_names i) then [GDupFn] else []) ++
+  (if existsb (fun t => existsb (beq_str (fst t)) fixed_names) (typedefs_of i) then [GFixedName] else []) ++
+  (if existsb (fun m => existsb (beq_str (snake (fst (fst m)))) rust_keywords) (methods_of i) then [GKeywordFn] else []).
